@@ -557,6 +557,9 @@ def do_check(a):
         os.makedirs(os.path.join(VERIF, "evidence"), exist_ok=True)
         with open(os.path.join(VERIF, "evidence", f"{prop}.json"), "w") as fh:
             json.dump(ev, fh, indent=1, default=str)
+        if tier == "thorough":  # kept beside the per-run file, which the next quick run rewrites
+            with open(os.path.join(VERIF, "evidence", f"{prop}.thorough.json"), "w") as fh:
+                json.dump(ev, fh, indent=1, default=str)
 
     for l in out_lines:
         print(l)
